@@ -1,7 +1,7 @@
 (* General tie, inverse 5/3 lifting, even = false. *)
 From V Require Import Common.Base Tie.GoSem Gen.KernelsSlices_gen.
 Require V.DWT.DwtModel.
-From Scr Require Import DwtTieLib DwtTieFwdEven DwtTieInvEven DwtTieInvOddLoop.
+From V Require Import Tie.DwtTieLib Tie.DwtTieFwdEven Tie.DwtTieInvEven Tie.DwtTieInvOddLoop.
 
 Theorem tie_inv53_odd : forall x, Forall (fun v => - 2 ^ 28 <= v < 2 ^ 28) x -> zlen x < 2 ^ 31 -> x <> [] ->
   jpeg2000_wavelet_Inverse53_1DWithParity x false = Some (D.inv53_odd x).
